@@ -356,6 +356,9 @@ def correspondence(obs, model):
         if not all(x is True for x in model['side_ok']) or not all(x is True for x in model['text_ok']):
             bad.append(('nested_text_side', 'side conditions of C09_nested_text_to_flat_partial do not hold: side_ok %s text_ok %s' % (
                 model['side_ok'], model['text_ok'])))
+    if model.get('flat_lines_ok') is False or model.get('nested_lines_ok') is False:
+        bad.append(('lines_ok', 'a rendered line holds a line boundary or the text ends in an empty line (linesOK false): '
+                                'join/splitlines would not give the lines back'))
     # the theorems, evaluated: the model's converters on the model's own lines give back the tokens of the flat values
     for key, name in (('flat_back_model', 'flat'), ('nested_back_model', 'nested')):
         mb = model.get(key)
@@ -474,6 +477,18 @@ def run_text(ctx, drv=None, pool=None):
             ctx.violation('the model\'s isPySpace differs from str.isspace: %s' % sorted(set(probe) ^ set(py))[:10],
                           {'model': probe, 'python': py}, signature={'kind': 'hypothesis', 'stage': 'text:isspace'}, no_failing_input=True)
         ctx.count('text:isspace-code-points', 0x110000)
+        # the model's splitlines / join against str.splitlines / '\n'.join on strings built around every line boundary
+        r = ctx.rng('text-splitlines')
+        alphabet = ['\n', '\r', '\r\n', '\x0b', '\x0c', '\x1c', '\x1d', '\x1e', '\x85', '\u2028', '\u2029', 'a', ' ', '', 'xy', '\x1f', '\t', '\xa0']
+        texts = [''.join(r.choice(alphabet) for _ in range(r.randint(0, 8))) for _ in range(300)]
+        resp = drv.batch([{'op': 'text', 'probe': 'splitlines', 'texts': texts}])[0]
+        for t, ls, jn in zip(texts, resp['lines'], resp['joined']):
+            if ls != t.splitlines() or jn != '\n'.join(t.splitlines()):
+                ctx.violation('the model\'s splitlines/join differs from Python on %r: %r vs %r' % (t, ls, t.splitlines()),
+                              {'text': t, 'model': ls, 'python': t.splitlines()},
+                              signature={'kind': 'hypothesis', 'stage': 'text:splitlines'}, no_failing_input=True)
+                break
+        ctx.count('text:splitlines-strings', len(texts))
         treq = tables_io.group_request()
         run_text_generated(ctx, drv, treq, pool)
         run_text_corpus(ctx, pool)
